@@ -501,6 +501,14 @@ def _d(x):
     return repr(x)
 
 
+def _protected(steps):
+    """Files the fault-free run really (re)writes through the lock protocol: X such that X.lock is
+    created and later renamed onto X.  A lock taken only to guard a best-effort clean-up (pruning a
+    loose ref that has just been packed with the same value) does not make X a protected write."""
+    locks = {s[1][: -len(".lock")] for s in steps if s[0] == "open_w" and s[1].endswith(".lock")}
+    return {s[1] for s in steps if s[0] in ("replace", "rename") and s[1] in locks}
+
+
 def case_fault(acc, name, idx, kind, idx2=None):
     setup, op = FAULT_SCENARIOS[name]
     en = crashfs.Enumerator(setup)
@@ -531,7 +539,7 @@ def _fault_one(acc, en, name, op, idx, kind, idx2=None, base=None):
     desc = "%s at step %d (%s %s)%s" % (kind, idx, site[0], site[1], "" if idx2 is None else " and step %d" % idx2)
     acc.count("fault_executions")
     acc.outcome("fault:%s:%s:%s" % (name, site[0], outcome[0] if outcome[0] != "exc" else "exc:" + outcome[1].split(":")[0]))
-    protected = {s[1][: -len(".lock")] for s in steps if s[1].endswith(".lock")}
+    protected = _protected(steps)
     for key, summary in _judge_fault(name, old, new, now, outcome, desc, protected):
         acc.violation(key, summary, rp(case_fault, name, idx, kind, idx2))
 
@@ -564,7 +572,7 @@ def work_faults(task):
                     acc.count("fault_executions")
                     acc.count("double_fault_executions")
                     desc = "EIO at step %d (%s %s) and at step %d (%s %s)" % (i, steps[i][0], steps[i][1], j, ctl.steps[j][0], ctl.steps[j][1])
-                    protected = {s[1][: -len(".lock")] for s in steps if s[1].endswith(".lock")}
+                    protected = _protected(steps)
                     viol = _judge_fault(name, base[0], base[1], now, outcome, desc, protected)
                     # a second fault on the unlink of the lock is filtered by _site_ok; anything else must still hold
                     for key, summary in viol:
